@@ -20,7 +20,7 @@ if [ "$T" != pass ] || [ "$DW" = 0 ] || [ "$DO" != 0 ]; then echo "$NAME: NOT CO
 git -C /repo apply "$W/patch.diff" || exit 2
 KILL=""
 for p in C01 C02 C03 C04 C05 C06 C07 C08 C09 C10 C11 C12 C13 C14 C15 C16 C17 C18 C19 C20; do
-    o=$(cd /verif && VERIF_WATCHDOG=120 VERIF_UNIT_WATCHDOG=10 ./check $p $TIER 2>/dev/null)
+    o=$(cd /verif && VERIF_WATCHDOG=${SEED_WATCHDOG:-120} VERIF_UNIT_WATCHDOG=${SEED_UNIT_WATCHDOG:-10} ./check $p $TIER 2>/dev/null)
     if echo "$o" | grep -q "^VIOLATION property=$p "; then KILL="$KILL $p"; fi
 done
 git -C /repo checkout -- .
